@@ -35,6 +35,8 @@ class Check:
         self.direct = {"evaluations": 0}
         self.trusted = []
         self.assumptions = []
+        self.extra_cov = {}
+        self.force_thorough = False
 
     # ------------------------------------------------------------ obligations
     def oblige(self, name, kind, ok, detail=""):
@@ -102,6 +104,52 @@ class Check:
                         "disallowed assumptions: %s" % bad if bad else "")
         return True, "", log
 
+    def source_tie(self, template_rel="Src_inst.v"):
+        """second tie, for the integer kernels only: translate the CURRENT source text (tools/gen_src.py, fail-closed) into MiniPy
+        syntax and re-prove, against that text, that its interpretation equals the model for every argument (run/Src_inst.v).
+        Not an obligation: when the text has been rewritten beyond what the translator or the proof script accepts, the
+        check falls back to the sampled correspondence with the thorough corpus and says so in the evidence."""
+        tie = {"functions": ["calc_crc24q", "crc2bytes", "len2bytes"], "status": "not-established", "detail": ""}
+        self.extra_cov["source_tie"] = tie
+        out = os.path.join(self.work, "Src.v")
+        env = vlib.impl_env()
+        env["VERIF_REPO"] = vlib.REPO
+        try:
+            p = subprocess.run([vlib.PY, os.path.join(vlib.VERIF, "tools", "gen_src.py"), out], env=env, capture_output=True, text=True, timeout=120)
+        except subprocess.TimeoutExpired:
+            p = None
+        if p is None or p.returncode != 0:
+            tie["detail"] = "translator refused: " + ((p.stderr or p.stdout)[-400:] if p else "timeout")
+        else:
+            ok, log, secs = vlib.coqc(out, self.work, 300)
+            if not ok:
+                tie["detail"] = "Src.v does not compile: " + log[-400:]
+            else:
+                src = os.path.join(vlib.VERIF, "run", template_rel)
+                dst = os.path.join(self.work, os.path.basename(template_rel))
+                shutil.copy(src, dst)
+                ok, log, secs2 = vlib.coqc(dst, self.work, 600)
+                if not ok:
+                    tie["detail"] = "equivalence proof does not go through on the current text: " + log[-600:]
+                else:
+                    thms = self._parse_assumptions(log)
+                    bad = {k: v for k, v in thms.items() if [a for a in v if not self._axiom_allowed(a)]}
+                    if bad or not thms:
+                        tie["detail"] = "unexpected assumptions: %r" % bad
+                    else:
+                        tie["status"] = "proved"
+                        tie["detail"] = "interpretation of the translated source = model, for all arguments (%.1fs)" % (secs + secs2)
+                        for name, ax in thms.items():
+                            self.axioms[name] = ax
+                            self.oblige("source theorem %s: MiniPy interpretation of the current source text = model (Print Assumptions: %s)"
+                                        % (name, "closed" if not ax else ", ".join(ax)), "source-theorem", True)
+        if tie["status"] != "proved":
+            self.force_thorough = True
+            self.notes.append("source tie for the CRC kernels not established (%s): falling back to the sampled correspondence with the thorough corpus" % tie["detail"][:300])
+        else:
+            self.notes.append("source tie: " + tie["detail"])
+        return tie["status"] == "proved"
+
     def diagnose(self, template_rel):
         src = os.path.join(vlib.VERIF, "run", template_rel)
         dst = os.path.join(self.work, os.path.basename(template_rel))
@@ -155,6 +203,8 @@ class Check:
             ch = fingerprint.changed_for(driver)
         except Exception as e:  # noqa
             ch = ["<fingerprint tool failed: %r>" % e]
+        if self.force_thorough and tier == "quick":
+            tier = "thorough"
         if ch and tier == "quick":
             tier = "thorough"
             self.notes.append("source of %s differs from the fingerprint baseline: driver %s uses the thorough corpus" % (", ".join(ch[:6]), driver))
@@ -253,9 +303,9 @@ class Check:
                 real.append(v)
         failed = [o for o in self.obligations if not o["ok"]]
         rc = 0
-        os.makedirs(os.path.join(vlib.VERIF, "work", "replays"), exist_ok=True)
+        os.makedirs(os.path.join(vlib.OUT, "work", "replays"), exist_ok=True)
         if real:
-            rp = os.path.join(vlib.VERIF, "work", "replays", "%s-%s-%d.json" % (self.prop, self.tier, self.seed))
+            rp = os.path.join(vlib.OUT, "work", "replays", "%s-%s-%d.json" % (self.prop, self.tier, self.seed))
             vlib.write_json(rp, {"property": self.prop, "failing_inputs": real[:10], "failed_obligations": failed,
                                  "how_to_replay": "bin/check %s --replay %s" % (self.prop, rp)})
             concrete = any(v["kind"] == "direct" or v.get("concrete") for v in real)
@@ -264,7 +314,7 @@ class Check:
                 print("  - [%s] %s" % (v["kind"], v.get("desc", "")))
             rc = 1
         elif failed:
-            rp = os.path.join(vlib.VERIF, "work", "replays", "%s-%s-%d.json" % (self.prop, self.tier, self.seed))
+            rp = os.path.join(vlib.OUT, "work", "replays", "%s-%s-%d.json" % (self.prop, self.tier, self.seed))
             vlib.write_json(rp, {"property": self.prop, "failing_inputs": [], "failed_obligations": failed,
                                  "note": "a proof obligation or the correspondence no longer checks; the search found no failing input"})
             print("VIOLATION property=%s replay=%s no-failing-input-found" % (self.prop, rp))
@@ -290,12 +340,13 @@ class Check:
         }
         if extra_cov:
             cov.update(extra_cov)
+        cov.update(self.extra_cov)
         ev = {
             "property_id": self.prop, "tier": self.tier, "seed": self.seed, "level": "proof", "coverage": cov,
             "assumptions": self.assumptions, "wall_s": round(time.time() - self.t0, 1), "violations": len(real) + (1 if (failed and not real) else 0),
             "notes": self.notes,
         }
-        vlib.write_json(os.path.join(vlib.VERIF, "evidence", "%s.json" % self.prop), ev)
+        vlib.write_json(os.path.join(vlib.OUT, "evidence", "%s.json" % self.prop), ev)
         shutil.rmtree(self.work, ignore_errors=True)
         if rc == 0:
             print("OK property=%s obligations=%d/%d correspondence_cases=%d direct=%d wall=%.0fs" % (
